@@ -195,3 +195,15 @@ package dataset
 //@   prop C02
 //@   requires b != nil && b.txn == nil && b.it == nil
 //@   ensures [reverse-reading-from-offset-zero-starts-at-the-newest-change] b.inverse && (old(b.startingOffset) == 0 ==> b.startingOffset == 18446744073709551615) && (old(b.startingOffset) != 0 ==> b.startingOffset == old(b.startingOffset))
+
+// the change-log entries of a removed version are searched in the change log of the version's own dataset, and every key
+// that is kept for the later delete is a copy of its own (the iterator reuses the buffer Key() hands out as it moves on)
+//@ unit (*deduplicationStrategy).findChangeLogKeys
+//@   prop C12
+//@   requires d != nil && txn != nil && len(jsonKey) == 24
+//@   safe slice
+//@   at call NewIterator#1 before
+//@     assert [C12:change-log-entries-are-searched-in-the-change-log-of-the-versions-own-dataset] len(opt.Prefix) == 6 && encBE16(opt.Prefix, 0) == 4 && encBE32(opt.Prefix, 2) == encBE32(jsonKey, 10)
+//@   at call append#1 before
+//@     assert [C12:a-change-log-key-kept-for-the-delete-is-a-copy-not-the-iterators-own-buffer] !iterOwned(arrOf($arg1[0]))
+
